@@ -692,6 +692,10 @@ func (vc *VC) evalBinop(e *Expr, env *SpecEnv) SV {
 		b = vc.evalSpec(e.Args[1], env)
 	case "==>":
 		a = vc.evalSpec(e.Args[0], env.flip())
+		if a.t == tFalse {
+			// statically false guard (boxed(x, "T") on another dynamic type): the consequent is not even typed
+			return mathBool(tTrue)
+		}
 		b = vc.evalSpec(e.Args[1], env.under(a.t))
 	default:
 		a = vc.evalSpec(e.Args[0], env.nopol())
@@ -1000,6 +1004,23 @@ func (vc *VC) evalCall(e *Expr, env *SpecEnv) SV {
 		fn := "decoded_" + sanitize(srt)
 		vc.declRaw("fn:"+fn, fmt.Sprintf("(declare-fun %s (%s) %s)", fn, bz.sortIn(vc), srt))
 		return SV{t: app(fn, bz.t), typ: et}
+	case "boxed":
+		// boxed(x, "path.Type"): decided statically - the interface value x was built in the calling function
+		// from a value of that type or from a pointer to it
+		if len(args) != 2 || args[1].Op != "str" {
+			vc.errorf("spec: boxed(x, \"path.Type\")")
+			return mathBool(tFalse)
+		}
+		t := vc.eng.parseGoType(args[1].Name)
+		x := ev(0)
+		if t == nil {
+			vc.errorf("spec: boxed: unknown type %s", args[1].Name)
+			return mathBool(tFalse)
+		}
+		if x.dyn != nil && x.dyn.typ != nil && (types.Identical(x.dyn.typ, t) || types.Identical(derefType(x.dyn.typ), t)) {
+			return mathBool(tTrue)
+		}
+		return mathBool(tFalse)
 	case "decodable":
 		bz := ev(0)
 		var et types.Type
